@@ -59,8 +59,8 @@ ASSUMPTIONS = [
     '(counted as info_json_save_left_lists_in_memory, not judged: the statement is about the file read back)',
 ]
 CONFIG = {
-    'quick': {'shards': 16, 'cases': 40, 'timeout': 600, 'floor': 128},
-    'thorough': {'shards': 32, 'cases': 1000, 'timeout': 3000, 'floor': 6400},
+    'quick': {'shards': 16, 'cases': 600, 'timeout': 600, 'floor': 1920},
+    'thorough': {'shards': 32, 'cases': 8000, 'timeout': 5400, 'floor': 51200},
 }
 REQUIRED = ['objects_sample', 'objects_smc', 'objects_bolfi', 'weighted_objects', 'columns_checked', 'means_checked',
             'intervals_checked', 'contract_weighted_sample_quantile', 'bolfi_warmup_checked', 'bolfi_warmup_positive',
